@@ -136,6 +136,35 @@ impl Meta {
         go(self, &mut is_pos, verbose);
     }
 
+    /// Adjacent groups must start with a required item: `ParseAdjacent::eval` looks for
+    /// that item to find the places a group can start at
+    pub(crate) fn adjacent_invariant_check(&self) {
+        match self {
+            Meta::And(xs) | Meta::Or(xs) => xs.iter().for_each(Meta::adjacent_invariant_check),
+            Meta::Item(i) => {
+                if let Item::Command { meta, .. } = &**i {
+                    meta.adjacent_invariant_check();
+                }
+            }
+            Meta::Adjacent(m) => {
+                assert!(
+                    Meta::first_item(m).is_some(),
+                    "bpaf usage BUG: adjacent should start with a required argument but {:?} does not",
+                    m
+                );
+                m.adjacent_invariant_check();
+            }
+            Meta::Optional(m)
+            | Meta::Required(m)
+            | Meta::Many(m)
+            | Meta::CustomUsage(m, _)
+            | Meta::Subsection(m, _)
+            | Meta::Strict(m)
+            | Meta::Suffix(m, _) => m.adjacent_invariant_check(),
+            Meta::Skip => {}
+        }
+    }
+
     pub(crate) fn normalized(&self, for_usage: bool) -> Meta {
         let mut m = self.clone();
         let mut norm = StrictNorm::Pull;
